@@ -438,6 +438,9 @@ def dense_history_strategy(max_steps: int):
         (7, st.tuples(st.just("add_link"), s, o, s, o).map(list)),
         (2, st.tuples(st.just("add_order_link"), s, s).map(list)),
         (2, st.tuples(st.just("add_link"), s, st.just(-1), s, st.just(-1)).map(list)),
+        (3, st.tuples(st.just("add_link"), s, st.just(-1), s, o).map(list)),  # from an order port to a value port
+        (1, st.tuples(st.just("add_link"), s, o, s, st.just(-1)).map(list)),  # from a value port to an order port
+        (2, st.tuples(st.just("add_order_link"), s, s).map(list)),
         (2, st.tuples(st.just("delete_existing_link"), SEL).map(list)),
         (1, st.tuples(st.just("delete_link"), s, o, s, o).map(list)),
         (3, st.tuples(st.just("delete_node"), SEL).map(list)),
